@@ -472,6 +472,15 @@ fn gen_cases(tier: Tier) -> Vec<Case> {
         ("loop-limit-lifted-later", "<config loop-limit=\"3\"/><loop count=\"5\"><rect xy=\"#z|h\" wh=\"1\"/></loop><config loop-limit=\"2000\"/><rect id=\"z\" wh=\"1\"/>", None),
         ("depth-limit-lowered-later", "<g><g><rect xy=\"#z|h\" wh=\"1\"/></g></g><config depth-limit=\"2\"/><rect id=\"z\" wh=\"1\"/>", Some(2)),
         ("var-limit-lowered-later", "<g q=\"abcdef\"><rect xy=\"#z|h\" wh=\"1\"/></g><config var-limit=\"2\"/><rect id=\"z\" wh=\"1\"/>", Some(2)),
+        // (fourth review round) ... and a limit configured between a waiting element and what it waits for stays in
+        // force when that element, which has a <config> of its own, is done
+        ("limit-configured-meanwhile/lifted", "<g><g><config border=\"1\"/><rect xy=\"#z|h\" wh=\"1\"/></g><config loop-limit=\"2000\"/><rect id=\"z\" wh=\"1\"/></g><loop count=\"1500\"><rect wh=\"1\"/></loop>", Some(1502)),
+        ("limit-configured-meanwhile/lowered", "<g><g><config border=\"1\"/><rect xy=\"#z|h\" wh=\"1\"/></g><config loop-limit=\"3\"/><rect id=\"z\" wh=\"1\"/></g><loop count=\"5\"><rect wh=\"1\"/></loop>", None),
+        ("limit-configured-meanwhile/var", "<g><g><config border=\"1\"/><rect xy=\"#z|h\" wh=\"1\"/></g><config var-limit=\"3\"/><rect id=\"z\" wh=\"1\"/></g><var a=\"12345\"/>", None),
+        ("limit-configured-meanwhile/depth", "<g><g><config border=\"1\"/><rect xy=\"#z|h\" wh=\"1\"/></g><config depth-limit=\"3\"/><rect id=\"z\" wh=\"1\"/></g><g><g><g><rect wh=\"1\"/></g></g></g>", None),
+        // a limit configured inside an element which has to wait is in force for what is written after it
+        ("limit-configured-in-waiting-element/loop", "<g><config loop-limit=\"1\"/><rect xy=\"#z|h\" wh=\"1\"/></g><loop count=\"2\"><rect wh=\"1\"/></loop><rect id=\"z\" wh=\"1\"/>", None),
+        ("limit-configured-in-waiting-element/var", "<g><config var-limit=\"1\"/><rect xy=\"#z|h\" wh=\"1\"/></g><var a=\"123\"/><rect id=\"z\" wh=\"1\"/>", None),
         ("control-no-forward-reference", "<loop count=\"5\"><rect wh=\"1\"/></loop><config loop-limit=\"2\"/><rect id=\"z\" wh=\"1\"/>", Some(6)),
     ] {
         v.push(Case { family: format!("deferred-config/{name}"), doc: body.to_string(), cfg: Cfg::plain(), expect, unasserted: false, param: 5, limit: 2 });
@@ -491,8 +500,26 @@ fn gen_cases(tier: Tier) -> Vec<Case> {
                 let body = format!("{}{el}{}", "<g>".repeat(k as usize), "</g>".repeat(k as usize));
                 let cfg = Cfg { depth_limit: l, ..Cfg::plain() };
                 let rects = if form == "content" { 1 } else { 0 };
-                v.push(Case { family: format!("depth/passed-through-svg-{form}"), doc: body, cfg, expect: if k + 1 > l { None } else { Some(rects) }, unasserted: false, param: (k + 1) as i64, limit: l as i64 });
+                // (at the top it is the document, which as real SVG is not processed at all)
+                if k == 0 {
+                    continue;
+                }
+                // (its content is nested one deeper)
+                let depth = if form == "content" { k + 2 } else { k + 1 };
+                v.push(Case { family: format!("depth/passed-through-svg-{form}"), doc: body, cfg, expect: if depth > l { None } else { Some(rects) }, unasserted: false, param: depth as i64, limit: l as i64 });
             }
+        }
+    }
+    // ... and the content of <defaults>, which is nesting like any other
+    for &l in &[1u32, 2, 3] {
+        for k in [l - 1, l, l + 1] {
+            // k - 1 groups inside <defaults> around the <rect>, which is then at depth k + 1
+            if k == 0 {
+                continue;
+            }
+            let body = format!("<defaults>{}<rect fill=\"red\"/>{}</defaults><rect wh=\"1\"/>", "<g>".repeat(k as usize - 1), "</g>".repeat(k as usize - 1));
+            let cfg = Cfg { depth_limit: l, ..Cfg::plain() };
+            v.push(Case { family: "depth/defaults-content".into(), doc: body, cfg, expect: if k + 1 > l { None } else { Some(1) }, unasserted: false, param: (k + 1) as i64, limit: l as i64 });
         }
     }
     v
